@@ -421,13 +421,21 @@ where
 	// recipient should double check the fee calculation and not blindly trust the
 	// sender
 
+	// amount plus fee (or the amount alone if it already includes the fee),
+	// refusing amounts so large that the sum does not fit
+	let with_fee = |fee: u64| -> Result<u64, Error> {
+		match amount_includes_fee {
+			true => Ok(amount),
+			false => amount.checked_add(fee).ok_or_else(|| {
+				Error::GenericError("Transaction amount plus fee is too large".to_owned())
+			}),
+		}
+	};
+
 	// First attempt to spend without change
 	let mut fee = tx_fee(coins.len(), 1, 1);
 	let mut total: u64 = coins.iter().map(|c| c.value).sum();
-	let mut amount_with_fee = match amount_includes_fee {
-		true => amount,
-		false => amount + fee,
-	};
+	let mut amount_with_fee = with_fee(fee)?;
 
 	if total == 0 {
 		return Err(Error::NotEnoughFunds {
@@ -453,10 +461,7 @@ where
 	// We need to add a change address or amount with fee is more than total
 	if total != amount_with_fee {
 		fee = tx_fee(coins.len(), num_outputs, 1);
-		amount_with_fee = match amount_includes_fee {
-			true => amount,
-			false => amount + fee,
-		};
+		amount_with_fee = with_fee(fee)?;
 
 		// Here check if we have enough outputs for the amount including fee otherwise
 		// look for other outputs and check again
@@ -484,10 +489,7 @@ where
 			.1;
 			fee = tx_fee(coins.len(), num_outputs, 1);
 			total = coins.iter().map(|c| c.value).sum();
-			amount_with_fee = match amount_includes_fee {
-				true => amount,
-				false => amount + fee,
-			};
+			amount_with_fee = with_fee(fee)?;
 		}
 	}
 	// If original amount includes fee, the new amount should
@@ -531,7 +533,15 @@ where
 	// if we are spending 10,000 coins to send 1,000 then our change will be 9,000
 	// if the fee is 80 then the recipient will receive 1000 and our change will be
 	// 8,920
-	let change = total - amount - fee;
+	let change = total
+		.checked_sub(amount)
+		.and_then(|t| t.checked_sub(fee))
+		.ok_or_else(|| Error::NotEnoughFunds {
+			available: total,
+			available_disp: amount_to_hr_string(total, false),
+			needed: amount.saturating_add(fee),
+			needed_disp: amount_to_hr_string(amount.saturating_add(fee), false),
+		})?;
 
 	// build inputs using the appropriate derived key_ids
 	if include_inputs_in_sum {
